@@ -337,6 +337,34 @@ macro_rules! groups {
             g.run("MontyForm.mul(new_vartime)", || { let p = MontyParams::<N>::new_vartime(om); Some(w(&(MontyForm::new(&x, p) * MontyForm::new(&y, p)).retrieve())) });
             g.runb("BoxedMontyForm.mul", || { let p = BoxedMontyParams::new(obm.clone()); Some((BoxedMontyForm::new(bxx.clone(), p.clone()) * BoxedMontyForm::new(by.clone(), p)).retrieve()) });
             g.emit(cx, "mulmod", bits, &f3, &[("pexp", bits as i64)]);
+            // ---- the special-modulus forms p = 2^BITS - c, fixed against boxed, on operands at the reduction boundaries
+            {
+                let c = match it % 4 { 0 => 189u64, 1 => 1, 2 => u64::MAX, _ => (cx.rng.next() >> (it % 40)) | 1 };
+                let pv = vsub(&vpow2(bits), &[c]);
+                let (sa, sb) = match it % 5 {
+                    0 => (fit(vshr(&vadd(&pv, &[1]), 1), N), fit(vec![2], N)),                 // (p+1)/2 * 2 = p + 1
+                    1 => (fit(vsub(&pv, &[1]), N), fit(vsub(&pv, &[1]), N)),                   // (p-1)^2
+                    2 => (vec![u64::MAX; N], fit(vec![1], N)),                                 // unreduced operand
+                    3 => (fit(vsub(&pv, &[1]), N), fit(vec![2], N)),
+                    _ => { let pt = fit(pv.clone(), N); (fit(below(&mut cx.rng, &pt), N), fit(below(&mut cx.rng, &pt), N)) }
+                };
+                let (ua, ub, ba2, bb2) = (u::<N>(&sa), u::<N>(&sb), bx(&sa), bx(&sb));
+                let fs: [(&str, &[u64]); 3] = [("a", &sa), ("b", &sb), ("m", &fit(pv.clone(), N))];
+                let mut g = Grp::new();
+                g.run("uint.mul_mod_special", || Some(w(&ua.mul_mod_special(&ub, Limb(c)))));
+                g.runb("boxed.mul_mod_special", || Some(ba2.mul_mod_special(&bb2, Limb(c))));
+                g.emit(cx, "mulmod", bits, &fs, &[("pexp", bits as i64)]);
+                if vcmp(&sa, &pv).is_lt() && vcmp(&sb, &pv).is_lt() {
+                    let mut g = Grp::new();
+                    g.run("uint.add_mod_special", || Some(w(&ua.add_mod_special(&ub, Limb(c)))));
+                    g.run("uint.add_mod", || Some(w(&ua.add_mod(&ub, &u::<N>(&pv)))));
+                    g.emit(cx, "addmod", bits, &fs, &[("pexp", bits as i64)]);
+                    let mut g = Grp::new();
+                    g.run("uint.sub_mod_special", || Some(w(&ua.sub_mod_special(&ub, Limb(c)))));
+                    g.runb("boxed.sub_mod_special", || Some(ba2.sub_mod_special(&bb2, Limb(c))));
+                    g.emit(cx, "submod", bits, &fs, &[("pexp", bits as i64)]);
+                }
+            }
             // ---- inversion: one-shot vs precomputed, ct vs vartime, fixed vs boxed, Montgomery
             let mut g = Grp::new();
             g.run("uint.inv_odd_mod", || oc(x.inv_odd_mod(&om)));
@@ -387,6 +415,48 @@ macro_rules! cst {
         g.run(concat!("runtime.", $name), || { let v: $ty = $rexpr; Some(v.to_words().to_vec()) });
         g.emit($cx, "same", 0, &[], &[("pexp", 0)]);
     }};
+}
+
+use vh::cb::impl_modulus;
+impl_modulus!(P15a, U128, "0000000000000000ffffffffffffffff");
+impl_modulus!(P15b, U128, "0000000000000001ffffffffffffffff");
+impl_modulus!(P15c, U128, "00000000000000007fffffffffffffff");
+impl_modulus!(P15d, U256, "0000000000000000fffffffffffffffffffffffffffffffeffffffffffffffff");
+impl_modulus!(P15e, U256, "ffffffff00000000ffffffffffffffffbce6faada7179e84f3b9cac2fc632551");
+impl_modulus!(P15f, U256, "0000000000000000000000000000000000000000000000010000000000000fff");
+impl_modulus!(P15g, U64, "0000000000000003");
+
+// parameter sets of one modulus through every constructor (macro / constant-time / vartime / boxed / converted): the
+// Debug rendering is the only public view of all fields, and it must be identical character for character
+macro_rules! params_routes {
+    ($cx:expr, $M:ident, $U:ty, $N:literal) => {{
+        use vh::cb::modular::ConstMontyParams;
+        let strip = |s: String| -> Option<Vec<u64>> { let body = s[s.find('{').unwrap_or(0)..].replace("Boxed", ""); Some(body.bytes().map(|b| b as u64).collect()) };
+        let om = Odd::new(<$M as ConstMontyParams<$N>>::MODULUS.get()).unwrap();
+        let mut g = Grp::new();
+        g.run("MontyParams::from_const_params", || strip(format!("{:?}", MontyParams::<$N>::from_const_params::<$M>())));
+        g.run("MontyParams::new", || strip(format!("{:?}", MontyParams::<$N>::new(om))));
+        g.run("MontyParams::new_vartime", || strip(format!("{:?}", MontyParams::<$N>::new_vartime(om))));
+        g.emit($cx, "same", 0, &[], &[("pexp", 0)]);
+        let lz = |s: String| -> Option<Vec<u64>> { let k = s.find("mod_leading_zeros: ").unwrap() + 19; Some(vec![s[k..].chars().take_while(|c| c.is_ascii_digit()).collect::<String>().parse().unwrap()]) };
+        let obm = Odd::new(BoxedUint::from(<$M as ConstMontyParams<$N>>::MODULUS.get())).unwrap();
+        let mut g = Grp::new();
+        g.run("macro.MOD_LEADING_ZEROS", || Some(vec![<$M as ConstMontyParams<$N>>::MOD_LEADING_ZEROS as u64]));
+        g.run("MontyParams::new.lz", || lz(format!("{:?}", MontyParams::<$N>::new(om))));
+        g.run("BoxedMontyParams::from_const_params.lz", || lz(format!("{:?}", BoxedMontyParams::from_const_params::<$N, $M>())));
+        g.run("BoxedMontyParams::new.lz", || lz(format!("{:?}", BoxedMontyParams::new(obm.clone()))));
+        g.run("BoxedMontyParams::new_vartime.lz", || lz(format!("{:?}", BoxedMontyParams::new_vartime(obm.clone()))));
+        g.emit($cx, "same", 0, &[], &[("pexp", 0)]);
+    }};
+}
+fn params_groups(cx: &mut Cx) {
+    params_routes!(cx, P15a, U128, 2);        // exactly 64 leading zeros
+    params_routes!(cx, P15b, U128, 2);        // 63
+    params_routes!(cx, P15c, U128, 2);        // 65
+    params_routes!(cx, P15d, U256, 4);   // P-192 prime in U256: 64
+    params_routes!(cx, P15e, U256, 4);
+    params_routes!(cx, P15f, U256, 4);
+    params_routes!(cx, P15g, U64, 1);
 }
 fn consts(cx: &mut Cx) {
     use std::hint::black_box as bb;
@@ -444,6 +514,6 @@ fn main() {
         groups!(&mut cx, 16, 20 * s);
         groups!(&mut cx, 32, 6 * s);
     }
-    if cx.want("consts") { consts(&mut cx); }
+    if cx.want("consts") { consts(&mut cx); params_groups(&mut cx); }
     cx.finish();
 }
